@@ -187,6 +187,14 @@ class CodecModel:
 
     def paths(self, fi, lendian, inline=()):
         inl = set(inline)
+        # an encoder/decoder may delegate to the leaf codec of a basic type
+        # by name (the descriptor index written with marshal_uint32): the
+        # leaf is analysed as part of it
+        leaf = 'ybnqiuxtdh'
+        for table in (self.enc, self.dec):
+            for code, f in table.items():
+                if code in leaf and f is not fi:
+                    inl.add(f.qualname)
         it = Interp(self.prog, inline=lambda q, d: q in inl,
                     exc_edges=True)
         args = {}
